@@ -135,7 +135,7 @@ func c02() []*Ob {
 				}
 				var rev, minV, maxV *ssa.Parameter
 				for _, p := range bt.Params {
-					switch p.Name() {
+					switch ParamName(p) {
 					case "reverse":
 						rev = p
 					case "minVal":
@@ -372,7 +372,7 @@ func c02() []*Ob {
 				}
 				var left *ssa.Parameter
 				for _, p := range fn.Params {
-					if p.Name() == "left" {
+					if ParamName(p) == "left" {
 						left = p
 					}
 				}
